@@ -42,6 +42,9 @@ func init() {
 type azRule struct {
 	Pattern string   `json:"p"`
 	Caps    []string `json:"c"`
+	// Boxed: the path block carries an expiration (a time-boxed grant); it
+	// stops counting once that instant has passed
+	Boxed bool `json:"x,omitempty"`
 }
 
 type azToken struct {
@@ -111,6 +114,9 @@ type azIn struct {
 	Req   string // request identity
 	Phase string // tok | pol | fin
 	Pol   string // phase pol: which policy is read
+	// Lapsed: the request was made after the instant at which time-boxed path
+	// blocks expire
+	Lapsed bool
 }
 
 type azOut struct {
@@ -170,6 +176,9 @@ func azPolicyAllows(pols map[string][]azRule, in azIn) bool {
 	caps := map[string]bool{}
 	for _, pn := range t.Policies {
 		for _, r := range pols[pn] {
+			if r.Boxed && in.Lapsed {
+				continue
+			}
 			if matchRule(r.Pattern, full) {
 				for _, c := range r.Caps {
 					caps[c] = true
@@ -346,9 +355,17 @@ func runC02(rc *RunCtx) {
 	}
 	patterns := []string{"rec/data/a", "rec/data/b", "rec/data/sub/*", "rec/admin/x"}
 	capSets := [][]string{{"read"}, {"read", "update"}, {"read", "update", "delete", "list"}, {"deny"}, {"update", "sudo"}, {"read", "sudo"}, {"list"}}
+	// time-boxed path blocks expire three simulated minutes from now: after the
+	// race, before the sequential tail
+	boxT := time.Now().Add(3 * time.Minute).UTC().Format(time.RFC3339)
+	lapsed := false
 	hcl := func(rules []azRule) string {
 		var sb strings.Builder
 		for _, r := range rules {
+			if r.Boxed {
+				fmt.Fprintf(&sb, "path %q { capabilities = [%s] expiration = %q }\n", r.Pattern, `"`+strings.Join(r.Caps, `","`)+`"`, boxT)
+				continue
+			}
 			fmt.Fprintf(&sb, "path %q { capabilities = [%s] }\n", r.Pattern, `"`+strings.Join(r.Caps, `","`)+`"`)
 		}
 		if sb.Len() == 0 {
@@ -360,7 +377,7 @@ func runC02(rc *RunCtx) {
 		var rules []azRule
 		for _, p := range patterns {
 			if tp.Pick(2) == 0 {
-				rules = append(rules, azRule{Pattern: p, Caps: capSets[tp.Pick(len(capSets))]})
+				rules = append(rules, azRule{Pattern: p, Caps: capSets[tp.Pick(len(capSets))], Boxed: tp.Pick(4) == 0})
 			}
 		}
 		return rules
@@ -551,7 +568,7 @@ func runC02(rc *RunCtx) {
 			}
 		}
 		ret := stamp()
-		in := azIn{Kind: "request", Tok: p.tok.az, Path: p.path, Op: p.op, Remote: p.remote}
+		in := azIn{Kind: "request", Tok: p.tok.az, Path: p.path, Op: p.op, Remote: p.remote, Lapsed: lapsed}
 		s.mu.Lock()
 		faulted := s.Faults["err-na"] > faultsBefore
 		recordRequest(c, in, azOut{Allowed: allowed, Faulted: faulted}, call, ret)
@@ -679,6 +696,10 @@ func runC02(rc *RunCtx) {
 	// sequential tail: after every change has been acknowledged each token
 	// makes a few more requests; they pin the end state (a stale cache entry
 	// put back by a request that raced with a change shows here at the latest)
+	// ... and the time-boxed path blocks have lapsed by then (the policies that
+	// carry them may sit in the policy cache, parsed long before)
+	s.Advance(4 * time.Minute)
+	lapsed = true
 	for _, t := range toks {
 		off := tp.Pick(len(paths))
 		for j := 0; j < 4; j++ {
